@@ -108,6 +108,14 @@ func ZZH6Pretty() {
 	sym.Observe("pretty", pretty, semi, indent)
 	prog2, dp, okp := reparse(pretty)
 	sym.Assert(okp, "pretty-output-parses")
+	if okc && okp {
+		// the two trees also agree on the text of identifiers and literals
+		progc, _, _ := reparse(compact)
+		lc, lp := &Digest{SkipGroups: true, Lits: true}, &Digest{SkipGroups: true, Lits: true}
+		lc.Program(progc)
+		lp.Program(prog2)
+		sym.Assert(SameInts(lc.Out, lp.Out), "pretty-and-compact-trees-have-the-same-literals")
+	}
 	sym.Assert(SameInts(dp.Out, g.Dig), "pretty-output-parses-to-the-same-tree-as-compact")
 	if okp && !dp.Missing && !dp.NilEntry {
 		again := newCompiler(true, semi, indent).Compile(prog2).Code
